@@ -144,7 +144,15 @@ def run_check(chk, tier, seed, replay, t0):
     gate = fw.proof_gate(chk.LEAN_MODULES, chk.THEOREMS, tier)
     fw.log("[%s] proof gate: %d/%d theorems, axioms %s, build %.1fs" % (
         pid, gate["discharged"], gate["obligations"], gate["axioms"], gate["build_s"]))
-    builds = chk.BUILDS[tier] if not replay else ["py"]
+    builds = chk.BUILDS[tier]
+    if replay:
+        # a replay runs on the build the violation was found on (recorded in the replay file), else the pure-Python one
+        try:
+            with open(replay) as f:
+                rb = json.load(f).get("build")
+        except Exception:
+            rb = None
+        builds = [rb] if rb in ("py", "cy") else ["py"]
     nworkers = int(os.environ.get("VERIF_WORKERS", "12"))
     known = fw.known_findings(pid)
     reports = []          # (kind, build, case, verdict)
